@@ -152,7 +152,8 @@ ScanValueVerdict(o, rb) ==
   LET r == Decode(rb) IN
   IF o.val.k = "nan" THEN (IF r.k = "nan" THEN "ok" ELSE "reject:scan-value") ELSE Agrees(o.ex, r, mode)
 ScanStreamVerdict(e) ==
-  LET sm == ScanMany(e.s, 1, e.k, mode)
+  LET io == Has(e, "failat")                                           \* the reader fails with an I/O error after e.failat bytes
+      sm == IF io THEN ScanManyIO(SubSeq(e.s, 1, e.failat), 1, e.k, mode) ELSE ScanMany(e.s, 1, e.k, mode)
       outs == sm.outs
       nOut == Len(outs)
       open == SelectInSeq(outs, LAMBDA o : o.err = "nan-signed")       \* a signed NaN: accepted or refused, the statement leaves it open
@@ -171,7 +172,7 @@ ScanStreamVerdict(e) ==
      ELSE IF e.n # nStored THEN "reject:scan-count"
      ELSE IF e.err # (IF failed THEN last.err ELSE "none") THEN "reject:scan-err"
      ELSE IF \E i \in (nOut + 1)..e.k : e.rs[i] # e.prev THEN "reject:scan-later-receiver-written"
-     ELSE IF e.rem # Len(e.s) - (sm.p - 1) THEN "reject:scan-consumed"
+     ELSE IF ~io /\ e.rem # Len(e.s) - (sm.p - 1) THEN "reject:scan-consumed"
      ELSE IF \E i \in 1..Len(vs) : vs[i] = "ok+" THEN "ok+" ELSE "ok"
 \* fmt.Sscanf(s, "%<verb>", &d): the seven verbs read a value like Fscan does, every other verb is refused
 ScanVerbVerdict(e) ==
